@@ -146,3 +146,117 @@ UNITS = {
         ],
     },
 }
+
+_ANYHOW = (r"anyhow!\((?:[^()]|\([^()]*\))*\)", "VerifError {}", "error value: the message text of anyhow!(..) is dropped")
+_IPDIV_PRE_MUT = """
+    requires
+        old(self).cfg_ok(),
+        forall|k: String| #[trigger] old(self).country_counts@.dom().contains(k) ==> old(self).country_counts@[k] < usize::MAX,
+"""
+
+UNITS["ipdiv"] = {
+    "property": "C13",
+    "src": "src/security.rs",
+    "spec": "verus/ipdiv.spec.rs",
+    "shims": {
+        "IPDiversityConfig": (None, {"max_nodes_per_64": "usize", "max_nodes_per_48": "usize", "max_nodes_per_32": "usize",
+                                     "max_nodes_per_ipv4_32": "usize", "max_nodes_per_ipv4_24": "usize",
+                                     "max_nodes_per_ipv4_16": "usize", "max_per_ip_cap": "usize", "max_nodes_per_asn": "usize"}),
+        "IPAnalysis": (None, {"subnet_64": "Ipv6Addr", "subnet_48": "Ipv6Addr", "subnet_32": "Ipv6Addr", "asn": "Option<u32>",
+                              "country": "Option<String>", "is_hosting_provider": "bool", "is_vpn_provider": "bool"}),
+        "IPv4Analysis": (None, {"ip_addr": "Ipv4Addr", "subnet_24": "Ipv4Addr", "subnet_16": "Ipv4Addr", "subnet_8": "Ipv4Addr",
+                                "asn": "Option<u32>", "country": "Option<String>", "is_hosting_provider": "bool",
+                                "is_vpn_provider": "bool"}),
+        "IPDiversityEnforcer": (None, {"config": "IPDiversityConfig",
+                                       "subnet_64_counts": "LruCache<Ipv6Addr, usize>", "subnet_48_counts": "LruCache<Ipv6Addr, usize>",
+                                       "subnet_32_counts": "LruCache<Ipv6Addr, usize>", "ipv4_32_counts": "LruCache<Ipv4Addr, usize>",
+                                       "ipv4_24_counts": "LruCache<Ipv4Addr, usize>", "ipv4_16_counts": "LruCache<Ipv4Addr, usize>",
+                                       "asn_counts": "LruCache<u32, usize>", "country_counts": "LruCache<String, usize>",
+                                       "network_size": "usize"}),
+    },
+    "enums": ["UnifiedIPAnalysis"],
+    "items": [
+        {"impl": "IPDiversityEnforcer", "fn": "can_accept_node", "desugar": ["let_chains", "deref_pat"],
+         "spec": """
+    requires
+        self.cfg_ok(),
+    ensures
+        r == self.v6_below_caps(ip_analysis), // @C13/v6/admitted_iff_every_level_below_its_cap
+"""},
+        {"impl": "IPDiversityEnforcer", "fn": "add_node", "desugar": ["let_chains", "deref_pat", "ref_pat"], "rewrite": [_ANYHOW],
+         "spec": _IPDIV_PRE_MUT + """
+    ensures
+        r.is_ok() == old(self).v6_below_caps(ip_analysis), // @C13/v6/add_succeeds_iff_every_level_below_its_cap
+        r.is_ok() ==> final(self).v6_added(old(self), ip_analysis), // @C13/v6/add_counts_each_level_once_and_touches_no_other_key
+        r.is_err() ==> final(self).same_counts(old(self)), // @C13/v6/failed_admission_consumes_none
+        final(self).same_settings(old(self)), // @C13/v6/add_leaves_settings
+"""},
+        {"impl": "IPDiversityEnforcer", "fn": "remove_node", "desugar": ["let_chains", "deref_pat", "ref_pat"],
+         "spec": """
+    ensures
+        final(self).v6_removed(old(self), ip_analysis), // @C13/v6/remove_returns_each_slot_and_touches_no_other_key
+        final(self).same_settings(old(self)), // @C13/v6/remove_leaves_settings
+"""},
+        {"impl": "IPDiversityEnforcer", "fn": "can_accept_ipv4", "desugar": ["let_chains", "deref_pat"],
+         "spec": """
+    requires
+        self.cfg_ok(),
+    ensures
+        r == self.v4_below_caps(analysis), // @C13/v4/admitted_iff_every_level_below_its_scaled_cap
+"""},
+        {"impl": "IPDiversityEnforcer", "fn": "add_ipv4", "desugar": ["let_chains", "deref_pat", "ref_pat"], "rewrite": [_ANYHOW],
+         "spec": _IPDIV_PRE_MUT + """
+    ensures
+        r.is_ok() == old(self).v4_below_caps(analysis), // @C13/v4/add_succeeds_iff_every_level_below_its_scaled_cap
+        r.is_ok() ==> final(self).v4_added(old(self), analysis), // @C13/v4/add_counts_each_level_once_and_touches_no_other_key
+        r.is_err() ==> final(self).same_counts(old(self)), // @C13/v4/failed_admission_consumes_none
+        final(self).same_settings(old(self)), // @C13/v4/add_leaves_settings
+"""},
+        {"impl": "IPDiversityEnforcer", "fn": "remove_ipv4", "desugar": ["let_chains", "deref_pat", "ref_pat"],
+         "spec": """
+    ensures
+        final(self).v4_removed(old(self), analysis), // @C13/v4/remove_returns_each_slot_and_touches_no_other_key
+        final(self).same_settings(old(self)), // @C13/v4/remove_leaves_settings
+"""},
+        {"impl": "IPDiversityEnforcer", "fn": "can_accept_unified",
+         "spec": """
+    requires
+        self.cfg_ok(),
+    ensures
+        r == (match *analysis { UnifiedIPAnalysis::IPv4(a) => self.v4_below_caps(&a), UnifiedIPAnalysis::IPv6(a) => self.v6_below_caps(&a) }), // @C13/unified/dispatches_to_the_address_family
+"""},
+        {"impl": "IPDiversityEnforcer", "fn": "add_unified",
+         "spec": _IPDIV_PRE_MUT + """
+    ensures
+        (match *analysis {
+            UnifiedIPAnalysis::IPv4(a) => r.is_ok() == old(self).v4_below_caps(&a) && (r.is_ok() ==> final(self).v4_added(old(self), &a)),
+            UnifiedIPAnalysis::IPv6(a) => r.is_ok() == old(self).v6_below_caps(&a) && (r.is_ok() ==> final(self).v6_added(old(self), &a)),
+        }), // @C13/unified/add_counts_exactly
+        r.is_err() ==> final(self).same_counts(old(self)), // @C13/unified/failed_admission_consumes_none
+        final(self).same_settings(old(self)), // @C13/unified/add_leaves_settings
+"""},
+        {"impl": "IPDiversityEnforcer", "fn": "remove_unified",
+         "spec": """
+    ensures
+        (match *analysis {
+            UnifiedIPAnalysis::IPv4(a) => final(self).v4_removed(old(self), &a),
+            UnifiedIPAnalysis::IPv6(a) => final(self).v6_removed(old(self), &a),
+        }), // @C13/unified/remove_returns_each_slot
+        final(self).same_settings(old(self)), // @C13/unified/remove_leaves_settings
+"""},
+        {"impl": "IPDiversityEnforcer", "fn": "set_network_size",
+         "spec": """
+    ensures
+        final(self).network_size == size, // @C13/size/set_network_size_sets_it
+        final(self).same_counts(old(self)) && final(self).config == old(self).config, // @C13/size/set_network_size_touches_no_count
+"""},
+    ],
+    "paired_kani": ["c13_v6_can_accept_iff_below_caps", "c13_v4_can_accept_iff_below_caps"],
+    "trusted": [
+        "ASSUMED dependency contract: lru::LruCache peek/get/put/pop behave as a finite map below capacity (verus/ipdiv.spec.rs); the lru crate is not verified; eviction at the 50k bound is outside the property's qualifier",
+        "ASSUMED: std::cmp::max/min on usize; Option<&T>::copied (assume_specification in verus/ipdiv.spec.rs)",
+        "verus external_body: IPDiversityEnforcer::get_per_ip_limit == min(cap, max(1, floor(size*fraction))) with the f64 part uninterpreted (contract proved on the real fn by Kani c13_per_ip_limit_contract)",
+        "precondition: configured caps >= 1, max_per_ip_cap <= 2^28 (x10 multiplier does not overflow), country counters < usize::MAX",
+        "struct shims omit fields no extracted function touches (geo_provider, reputation_score, enable_geolocation_check, ...); anyhow error values are replaced by a unit error type",
+    ],
+}
